@@ -234,6 +234,7 @@ impl Store {
     pub(super) fn more_dependent_accesses(&self, operation: Operation) -> &[Option<Access>] {
         match &self.entries[operation.obj.index] {
             Entry::Atomic(entry) => entry.last_dependent_loads(operation.action.into()),
+            Entry::Channel(entry) => entry.more_dependent_accesses(operation.action.into()),
             _ => &[],
         }
     }
